@@ -485,8 +485,9 @@ type region struct {
 	ref    Term
 	whole  bool // all of the inner array (elements / map entries)
 	lo, hi Term // absolute element index range when !whole and isElem
-	isElem bool
-	global bool
+	isElem   bool
+	global   bool
+	ghostAll bool // the whole ghost map
 }
 
 // evalRegions turns a modifies list into heap regions, evaluated in env's
@@ -560,7 +561,25 @@ func (vc *VC) evalRegions(env *Env, locs []Expr) ([]region, error) {
 			default:
 				return nil, fmt.Errorf("modifies %s: not a slice or map", exprString(l))
 			}
+		case *EIndex:
+			if id, ok := x.X.(*EIdent); ok {
+				if g := vc.specs.ghost(id.Name); g != nil && g.IsMap {
+					iv, err := env.eval(x.I)
+					if err != nil {
+						return nil, err
+					}
+					vc.heap(env.st, g.heapName(), g.sort())
+					out = append(out, region{heap: g.heapName(), ref: iv.T})
+					continue
+				}
+			}
+			return nil, fmt.Errorf("modifies %s: unsupported location", exprString(l))
 		case *EIdent:
+			if g := vc.specs.ghost(x.Name); g != nil {
+				vc.heap(env.st, g.heapName(), g.sort())
+				out = append(out, region{heap: g.heapName(), global: !g.IsMap, whole: g.IsMap, ghostAll: g.IsMap})
+				continue
+			}
 			// a global variable of this package, or "*p" style pointer target
 			if env.pkg != nil {
 				if obj := env.pkg.Scope().Lookup(x.Name); obj != nil {
@@ -608,7 +627,7 @@ func (vc *VC) havocRegions(st, pre *State, regs []region, pc Term) {
 			}
 		}
 		h := vc.heap(st, r.heap, info.Sort)
-		if r.global {
+		if r.global || r.ghostAll {
 			vc.havocHeap(st, r.heap)
 			continue
 		}
@@ -630,6 +649,11 @@ func (vc *VC) guessHeapSort(r region) Sort {
 // objects that existed at watermark wm.
 func (vc *VC) frameFormula(cur, was Term, heap string, regs []region, wm Term) Term {
 	info := vc.heapInfo[heap]
+	for _, r := range regs {
+		if r.heap == heap && r.ghostAll {
+			return tTrue
+		}
+	}
 	if info == nil || !hasPrefix(info.Sort, "(Array ") {
 		for _, r := range regs {
 			if r.heap == heap && r.global {
